@@ -7,3 +7,5 @@ import WrglModel.Props.C09
 #print axioms Wrgl.C09_tables_within_depth
 #print axioms Wrgl.C09_transfer_closed_multi
 #print axioms Wrgl.C09_fact_fetchRetryResetsCookies
+#print axioms Wrgl.C09_interrupted_commit_has_table
+#print axioms Wrgl.C09_deferred_tables_unsafe
